@@ -53,6 +53,8 @@ structure CallRec where
   lc : Option (Option Nat)
   /-- the three `max_*` queries asked before the call for `n` bytes: utf8 / utf8 without replacement / utf16 -/
   q : Option (Option Nat × Option Nat × Option Nat)
+  /-- the same queries for a byte count near the overflow thresholds -/
+  qx : Option (Nat × (Option Nat × Option Nat × Option Nat)) := none
 
 def parseKv (s : String) : Option (String × String) :=
   match s.splitOn "=" with
@@ -87,7 +89,17 @@ def parseCall (k : Sink) (s : String) : Option CallRec := do
         let a ← parseQ a; let b ← parseQ b; let c ← parseQ c
         pure (some (a, b, c))
       | _ => none
-  pure ⟨n, cap, l == "1", r, rd, units, he, lc, q⟩
+  let qx ← match get "qx" with
+    | none => some none
+    | some v => match v.splitOn ":" with
+      | [nn, rest] => match rest.splitOn "/" with
+        | [a, b, c] => do
+          let nn ← nn.toNat?
+          let a ← parseQ a; let b ← parseQ b; let c ← parseQ c
+          pure (some (nn, (a, b, c)))
+        | _ => none
+      | _ => none
+  pure ⟨n, cap, l == "1", r, rd, units, he, lc, q, qx⟩
 
 def showRes : Res → String
   | .inputEmpty => "I"
@@ -177,6 +189,10 @@ def runDecHistory {F : Fam} (k : Sink) (repl : Bool) (nomIdent : String) (stream
         | none => true
         | some v => maxf d c.n == v
       if !qOk then s!"call#{i}: max_*_buffer_length queries: model={maxf d c.n}" else
+      let qxOk := match c.qx with
+        | none => true
+        | some (nn, v) => maxf d nn == v
+      if !qxOk then s!"call#{i}: max_*_buffer_length queries near overflow (n={(c.qx.map (·.1)).getD 0}): model={maxf d ((c.qx.map (·.1)).getD 0)}" else
       let r := if repl then checkRepl k src c d 0 [] false (src.length + 8) else checkRaw k d src c
       match r with
       | none => s!"call#{i}: not admissible (n={c.n} cap={c.cap} last={c.last} impl={c.res} read={c.read} units={c.units.length})"
